@@ -24,10 +24,12 @@ Hypotheses that occur:
   symmetric range with zeros appended, to which the theorems then apply (if the padded weights are symmetric).
 No hypothesis on the centre weight `w 0 0 0` is needed any more (`C09_nonzero_centre_weight_is_covered`).
 PLSPrior: derivative of the value with respect to every single voxel (partial derivatives), scaling, uniform images.
-Not covered by theorems (correspondence run + oracle only): float rounding; the RDP derivative statements at
-points with equal neighbouring values (`C09_rdp_derivatives_at_equal_values`); PLS directional derivatives along arbitrary images.
+The RDP derivative statements also hold at points with equal neighbouring values (`C09_rdp_derivatives_at_equal_values`, where
+`|x - y|` is not differentiable but the potential is).
+Not covered by theorems (correspondence run + oracle only): float rounding; PLS directional derivatives along arbitrary images.
 -/
 import StirVerif.C09.ProofsImage
+import StirVerif.C09.ProofsRdpDiag
 import StirVerif.C09.ProofsPls
 import StirVerif.C09.ProofsObj
 
@@ -484,13 +486,26 @@ example : ∀ sp ∈ [((1 : ℝ), (1 : ℝ), (1 : ℝ)), (2, 3 / 2, 5 / 4)], (0 
   simp only [List.mem_cons, List.mem_nil_iff, or_false] at h
   rcases h with rfl | rfl <;> norm_num
 
-/-! ### clauses that are stated but NOT proved -/
+/-! ### the RDP derivative statements at equal neighbouring values (formerly stated but not proved) -/
 
-/-- the RDP derivative statements at points with `x = y` (the potential is C² there as well, but `|x - y|` is not differentiable,
-    so the proofs above do not apply); covered by the finite-difference oracle only -/
-def C09_rdp_derivatives_at_equal_values : Prop :=
-  ∀ γ ε x : ℝ, 0 < rdpDen γ ε x x → (0 < x ∨ 0 < ε) →
-    HasDerivAt (fun t => two * rdpPsi γ ε t x) (rdpD10 γ ε x x) x ∧ HasDerivAt (fun t => rdpD10 γ ε t x) (rdpD20 γ ε x x) x
+/-- the RDP derivative statements at points with `x = y` (uniform regions of the image): `|t - x|` is not differentiable at `t = x`, so
+    the quotient-rule proofs for `x ≠ y` do not apply, but `2ψ(t,x) = (t-x)·((t-x)/D(t))` and `derivative_10(t,x) = (t-x)·(N(t)/D(t)²)`
+    with `D`, `N` continuous at `x`, hence both are differentiable at `t = x`: `derivative_10(x,x) = 0` is the derivative of (twice) the value
+    term and `derivative_20(x,x) = 2/(2x+ε)` is the derivative of `derivative_10(·,x)`, for every `γ` (any sign) wherever the
+    denominator `2x + ε` is positive.  Full strength: exactly the hypotheses of the clause as it was stated before it was proved
+    (the second one, the guard of `derivative_20`, is in fact implied by the first). -/
+theorem C09_rdp_derivatives_at_equal_values (γ ε x : ℝ) (h : 0 < rdpDen γ ε x x) (hx : 0 < x ∨ 0 < ε) :
+    HasDerivAt (fun t => two * rdpPsi γ ε t x) (rdpD10 γ ε x x) x ∧ HasDerivAt (fun t => rdpD10 γ ε t x) (rdpD20 γ ε x x) x :=
+  rdp_derivatives_on_diagonal γ ε x h hx
+
+/-- non-vacuity: `γ = 2`, `ε = 0`, `x = y = 1` meets the hypotheses (denominator `2`), and the second derivative there is
+    `derivative_20(1,1) = 1 ≠ 0`; so does `x = y = 0` with `ε = 1/2` (an empty region of the image) -/
+example : 0 < rdpDen (2 : ℝ) 0 1 1 ∧ ((0 : ℝ) < 1 ∨ (0 : ℝ) < 0) ∧ rdpD20 (2 : ℝ) 0 1 1 = 1
+    ∧ 0 < rdpDen (2 : ℝ) (1 / 2) 0 0 ∧ ((0 : ℝ) < 0 ∨ (0 : ℝ) < 1 / 2) := by
+  refine ⟨?_, Or.inl one_pos, ?_, ?_, Or.inr (by norm_num)⟩
+  · rw [rdpDen_eq]; norm_num
+  · rw [rdpD20_eq _ _ _ _ (Or.inl one_pos), rdpDen_eq]; norm_num
+  · rw [rdpDen_eq]; norm_num
 
 /-! ### PLSPrior (the code after the repairs C09-1, C09-2) -/
 
